@@ -1,5 +1,5 @@
 #!/venv/bin/python
-"""tools/seed_recheck.py [seed-id ...]   (default: all of /verif/seeded)
+"""tools/seed_recheck.py [--benign] [-v] [id ...]   (default: all of /verif/seeded, or of /verif/benign with --benign)
 
 Re-runs every check (quick tier) on a scratch worktree of /repo with each kept seed applied, and records the verdicts
 in the seed's meta.json under "checks_now" (the verdicts of the first evaluation stay under "checks").  /repo itself and
@@ -28,7 +28,14 @@ def one_check(c):
 
 
 def main():
-    ids = sys.argv[1:] or sorted(d for d in os.listdir(os.path.join(VERIF, "seeded")) if os.path.isdir(os.path.join(VERIF, "seeded", d)))
+    corpus = "seeded"
+    args = sys.argv[1:]
+    if args and args[0] == "--benign":
+        corpus = "benign"
+        args = args[1:]
+    verbose = "-v" in args
+    args = [a for a in args if a != "-v"]
+    ids = args or sorted(d for d in os.listdir(os.path.join(VERIF, corpus)) if os.path.isdir(os.path.join(VERIF, corpus, d)))
     sh(["git", "-C", "/repo", "worktree", "remove", "--force", WT])
     rc, o = sh(["git", "-C", "/repo", "worktree", "add", "--detach", WT, "HEAD"])
     assert rc == 0, o
@@ -36,7 +43,7 @@ def main():
     missed = []
     try:
         for sid in ids:
-            d = os.path.join(VERIF, "seeded", sid)
+            d = os.path.join(VERIF, corpus, sid)
             meta = json.load(open(os.path.join(d, "meta.json")))
             rc, o = sh(["git", "-C", WT, "apply", os.path.join(d, "patch.diff")])
             if rc != 0:
@@ -54,13 +61,23 @@ def main():
                                   "instances": {c: k[:6] for c, rc, k, e in res if rc == 1},
                                   "errors": {c: e[:2] for c, rc, k, e in res if rc == 2}}
             json.dump(meta, open(os.path.join(d, "meta.json"), "w"), indent=1)
+            if corpus == "benign":
+                flag = "" if not caught and not errors else "   <-- FALSE ALARM" if caught else "   <-- unrecognised form"
+                print(f"{sid}: violations={caught} errors={errors}{flag}")
+                if verbose:
+                    for c, rc, k, e in res:
+                        if rc:
+                            print("     ", c, (k or e)[:5])
+                if caught or errors:
+                    missed.append(sid)
+                continue
             flag = "" if meta["property"] in caught else "   <-- target property silent"
             print(f"{sid}: caught_by={caught} errors={errors}{flag}")
             if meta["property"] not in caught:
                 missed.append(sid)
     finally:
         sh(["git", "-C", "/repo", "worktree", "remove", "--force", WT])
-    print("target property silent:", missed)
+    print("not silent:" if corpus == "benign" else "target property silent:", missed)
     return 0
 
 
